@@ -6,6 +6,7 @@ require (
 	github.com/spf13/afero v1.12.0
 	github.com/xakep666/ps3netsrv-go v0.0.0
 	golang.org/x/net v0.37.0
+	golang.org/x/sys v0.31.0
 	pgregory.net/rapid v1.3.0
 )
 
@@ -13,7 +14,6 @@ require (
 	github.com/alecthomas/kong v1.8.1 // indirect
 	github.com/djherbis/times v1.6.0 // indirect
 	github.com/lmittmann/tint v1.0.7 // indirect
-	golang.org/x/sys v0.31.0 // indirect
 	golang.org/x/text v0.23.0 // indirect
 	gopkg.in/ini.v1 v1.67.0 // indirect
 )
